@@ -89,6 +89,10 @@ func TestVerif_C17(t *testing.T) {
 			vcliC17Session(r, c, true)
 		})
 	})
+	vcliC17ReservationCases(t, r, r.N(150, 1500))
+	r.Require("reservation_headers_checked_against_limit", 300)
+	r.Require("reservation_pool_choices_of_the_warm_connection_checked", 200)
+	r.Require("reservation_requests_failed_after_stream_id_before_headers", 100)
 	r.Require("streams_opened", 2000)
 	r.Require("headers_checked_at_limit_minus_one", 200)
 	r.Require("waiting_at_quiescence_conn_full", 100)
